@@ -20,7 +20,17 @@ the normaliser does not unify (silent); different on one = VIOLATION with that m
 opaque part) = undecided, unless an input is provably lost (the result does not depend on it at all).
 
 Outcomes: VIOLATION needs a counterexample model, a lost input, or a `raise` inside the loop over the rules; code the evaluator
-cannot model (while / with / recursion / unknown containers ...) makes the affected comparison undecided, never violated.
+cannot model (while / recursion / unknown containers / context managers from libraries ...) makes the affected comparison
+undecided, never violated.  `with` over a context manager class of the analysed code is `try / except <the classes its __exit__
+suppresses> / else` (the classes are read off a trial evaluation of `__exit__` on a symbolic exception: `issubclass(exc_type, X)`,
+`isinstance(exc, X)`); `@contextmanager` generators run the body at their `yield`; `contextlib.suppress(X)` is `except X: pass`.
+Module-level constants, class attributes and parameter defaults are evaluated once per run (an object created there is shared).
+Positions of `enumerate` and slices bounded by them are exact when they refer to one sequence of distinct elements in one order
+(`S[:i] + S[i+1:]`, `del S[i]`, `S.pop(i)` = S without its i-th element); positions into another order give no verdict.
+
+The DiagramRule protocol is evaluated twice on one rule object - also with `with_base_module` / `from_file` called again between the
+two evaluations: each evaluation must equal a fresh pipeline with the configuration then in force (state derived from an earlier
+configuration - generated rules, the parsed diagram - must not survive a change of what it was derived from).
 `engine/rules/c07_variants.py` is a developer corpus of ~40 re-spellings (must stay silent) and breaking changes in the same
 idioms (must fire); run it after touching the evaluator.
 """
@@ -144,6 +154,8 @@ class Anchors:
             "M": sym("M"),
             "D": sym("D"),
             "P": sym("P"),
+            "P2": sym("P2"),
+            "PATH2": sym("PATH2"),
             "FLAG": sym("FLAG"),
             "R": sym("R"),
             "EV": sym("EV"),
@@ -372,57 +384,71 @@ def parse_hook(A: Anchors):
 
 
 PROTOCOLS = [
-    ("with_base_module(p), explicit mode", "r = DRULE(FLAG).from_file(PATH).with_base_module(P)", "FLAG", "P"),
-    ("with_base_module(p), keyword mode", "r = DRULE(should_only_rule=FLAG).from_file(PATH).with_base_module(P)", "FLAG", "P"),
-    ("base_module_included_in_module_names(), default mode", "r = DRULE().from_file(PATH).base_module_included_in_module_names()", "True", "None"),
+    {"label": "with_base_module(p), explicit mode", "setup": "r = DRULE(FLAG).from_file(PATH).with_base_module(P)", "flag": "FLAG", "p": "P"},
+    {"label": "with_base_module(p), keyword mode", "setup": "r = DRULE(should_only_rule=FLAG).from_file(PATH).with_base_module(P)", "flag": "FLAG", "p": "P"},
+    {"label": "base_module_included_in_module_names(), default mode", "setup": "r = DRULE().from_file(PATH).base_module_included_in_module_names()", "flag": "True", "p": "None"},
+    # a rule object that is configured again after it was evaluated behaves like a fresh rule with the new configuration
+    {"label": "with_base_module(p) evaluated, then with_base_module(q)", "setup": "r = DRULE(FLAG).from_file(PATH).with_base_module(P)", "flag": "FLAG", "p": "P", "between": "r.with_base_module(P2)", "p2": "P2"},
+    {"label": "base_module_included_in_module_names() evaluated, then with_base_module(q)", "setup": "r = DRULE(FLAG).from_file(PATH).base_module_included_in_module_names()", "flag": "FLAG", "p": "None", "between": "r.with_base_module(P2)", "p2": "P2"},
+    {"label": "from_file(a) evaluated, then from_file(b)", "setup": "r = DRULE(FLAG).from_file(PATH).with_base_module(P)", "flag": "FLAG", "p": "P", "between": "r.from_file(PATH2)", "path2": "PATH2"},
 ]
-REFERENCE = "MRA(CONV({flag}).convert(PREFIXER.prefix(PARSER().parse(PATH), {p}))).assert_applies({ev})"
+REFERENCE = "MRA(CONV({flag}).convert(PREFIXER.prefix(PARSER().parse({path}), {p}))).assert_applies({ev})"
 
 
 def check_pipeline(repo: Repo, res: Result, A: Anchors) -> None:
-    """DiagramRule.assert_applies == apply(convert(prefix(parse(path), base module))), twice on the same rule object.
+    """DiagramRule.assert_applies == apply(convert(prefix(parse(path), base module))), twice on the same rule object - the second
+    time as it is, or after the object was configured again (`between`): the configuration in force at the evaluation counts.
 
     First with the three pure stages summarised (`<prefix>(...)`, `<convert>(...)` terms: differences are named at stage level); when
     that does not match (e.g. a stage is by-passed or inlined) once more with every stage evaluated down to the generated rules.
     A difference is only reported when both comparisons differ."""
     key = f"{A.dr_apply.relpath}::{A.drule.name}.assert_applies"
     where = where_of(A.dr_apply)
-    assume = {"PATH is None": False}
+    assume = {"PATH is None": False, "PATH2 is None": False}
 
-    def attempt(mode: str, setup: str, flag: str, p: str, label: str):
+    def attempt(mode: str, proto: dict):
+        label, flag = proto["label"], proto["flag"]
         stages = {A.parse.fq: "parse"}
         if mode == "stages":
             stages.update({A.prefix.fq: "prefix", A.convert.fq: "convert"})
         ev = new_eval(repo, A, stages)
         ev.stage_hook = parse_hook(A)
-        fr = run_source(ev, A, setup)
-        marks = [len(ev.trace.items)]
-        for evn in ("EV1", "EV2"):
-            run_source(ev, A, f"r.assert_applies({evn})", {"r": fr.env.vars.get("r", ("const", None))})
+        fr = run_source(ev, A, proto["setup"])
+        r = fr.env.vars.get("r", ("const", None))
+        marks = []
+        for n, evn in enumerate(("EV1", "EV2")):
+            if n == 1 and proto.get("between"):
+                run_source(ev, A, proto["between"], {"r": r})
+            marks.append(len(ev.trace.items))
+            run_source(ev, A, f"r.assert_applies({evn})", {"r": r})
             marks.append(len(ev.trace.items))
         probes = []
         for i, evn in enumerate(("EV1", "EV2")):
+            p = proto.get("p2", proto["p"]) if i == 1 else proto["p"]
+            path = proto.get("path2", "PATH") if i == 1 else "PATH"
             ev_e = new_eval(repo, A, stages)
             ev_e.stage_hook = parse_hook(A)
-            run_source(ev_e, A, REFERENCE.format(flag=flag, p=p, ev=evn))
+            run_source(ev_e, A, REFERENCE.format(flag=flag, p=p, ev=evn, path=path))
             probe = Result("C07")
-            c = Comparison(probe, "C07.R3" if i == 0 else "C07.R2", key, where, ev)
+            c = Comparison(probe, "C07.R3" if i == 0 or proto.get("between") else "C07.R2", key, where, ev)
             what = f"{label}: {'first' if i == 0 else 'second'} evaluation == apply(convert(prefix(parse(path), base module)))"
             atoms = []
             if mode == "full":
-                atoms = ([("truthy", sym("FLAG"))] if flag == "FLAG" else []) + ([("is", sym("P"), ("const", None))] if p == "P" else [])
-            c.compare(what, trace_of(ev, marks[i], marks[i + 1]), trace_of(ev_e), ev_e, atoms, {"D"}, assume=assume, kind="flow")
+                atoms = ([("truthy", sym("FLAG"))] if flag == "FLAG" else []) + ([("is", sym(p), ("const", None))] if p in ("P", "P2") else [])
+                if i == 1 and p == "P2" and proto["p"] == "P":
+                    atoms.append(("is", sym("P"), ("const", None)))  # what the first configuration was may matter when state is kept
+            c.compare(what, trace_of(ev, marks[2 * i], marks[2 * i + 1]), trace_of(ev_e), ev_e, atoms, {"D"}, assume=assume, kind="flow")
             probes.append((what, probe))
         return probes
 
     def clean(probes) -> bool:
         return all(not pr.violations and not pr.undecided for _w, pr in probes)
 
-    for label, setup, flag, p in PROTOCOLS:
-        staged = attempt("stages", setup, flag, p, label)
+    for proto in PROTOCOLS:
+        staged = attempt("stages", proto)
         full = None
         if not clean(staged):
-            full = attempt("full", setup, flag, p, label)
+            full = attempt("full", proto)
         if clean(staged) or clean(full):
             for what, pr in staged:
                 rule = pr.obligations[0].rule if pr.obligations else "C07.R3"
@@ -434,8 +460,9 @@ def check_pipeline(repo: Repo, res: Result, A: Anchors) -> None:
                 ps = pf  # this evaluation only differs below stage level
             chosen = ps if ps.violations else pf if pf.violations else ps
             for o in chosen.violations:
-                # the second evaluation differing *alone* is a matter of state kept between evaluations (aggregation, R2)
-                res.add("C07.R3" if n == 0 or first_bad else "C07.R2", o.construct, False, o.detail, o.where, kind=o.kind)
+                # the second evaluation differing *alone* is a matter of state kept between evaluations (aggregation, R2) - unless
+                # the object was configured again in between (R3: the configuration in force counts)
+                res.add("C07.R3" if n == 0 or first_bad or proto.get("between") else "C07.R2", o.construct, False, o.detail, o.where, kind=o.kind)
             first_bad = first_bad or (n == 0 and bool(chosen.violations))
             if not chosen.violations:
                 for u in (ps.undecided or pf.undecided):
